@@ -17,7 +17,7 @@ open Spec.X86 Model.X86 AsmjitVerif.Lemmas.X86Parse AsmjitVerif.Gen.X86ClassRows
 def hasMemAlt (f : FormOp) (sz : Nat) : Bool :=
   f.alts.any fun a => match a with | .mem (some s) .none => s == sz | _ => false
 
-theorem hasMemAlt_matches (osz : Nat) (f : FormOp) (sz : Nat) (m : MemOp) (h : hasMemAlt f sz = true) (hsz : m.size = sz) (hik : m.indexKind = .none) :
+theorem hasMemAlt_matches (osz : Nat) (f : FormOp) (sz : Nat) (m : MemOp) (h : hasMemAlt f sz = true) (hsz : m.size = sz) (hvs : vsibOf m = .none) :
     formOpMatches osz f (.mem m) = true := by
   unfold hasMemAlt at h
   unfold formOpMatches
@@ -30,7 +30,7 @@ theorem hasMemAlt_matches (osz : Nat) (f : FormOp) (sz : Nat) (m : MemOp) (h : h
     | none => simp at hm
     | some s' =>
       cases vs <;> simp at hm
-      simp [altMatches, vsibOf, hik, hsz, hm]
+      simp [altMatches, hvs, hsz, hm]
   | _ => simp at hm
 
 def vexRuleMOk (r : Rule) (nimm : Nat) : Bool :=
@@ -163,20 +163,22 @@ theorem vexFlag_true_of (c : Model.X86.Ctx) (fl : BitVec 32) (hvf : c.vexFlag = 
 
 In all four: `c.vexFlag` is the row's Vex flag (as `emitInst` sets it); the EVEX branch is taken when the instruction has no VEX form at all
 (EVEX-only: 309 + 102 + 181 + 39 pairs) or when a register number / the opcode word needs EVEX; VEX forms take register numbers 0..15 and are emitted
-as VEX3 or VEX2. ALL base registers 0..15, ALL 64-bit displacement values (the encoder uses the low 32 bits). -/
+as VEX3 or VEX2. Generic in the address form (`AddrForm`); instances: `addrForm_base` = `[base64 + disp]` with ALL base registers 0..15 and ALL
+64-bit displacement values (the encoder uses the low 32 bits), `addrForm_index` = `[base64 + index64 * scale + disp]`. -/
 
-/-- **front_cls_correct with a memory operand, classes VexRvm / VexRvm_Lx**: `reg, vvvv, [base64 + disp]` -/
+/-- **front_cls_correct with a memory operand, classes VexRvm / VexRvm_Lx**: `reg, vvvv, MEM` -/
 theorem front_cls_correct_rvm_mem (e : Entry) (ch : List Entry) (hch : ch ∈ rvmChunks) (he : e ∈ ch)
-    (c : Model.X86.Ctx) (ctx : Spec.X86.Ctx) (reg vvvvv rb : BitVec 32) (size : Nat) (d : BitVec 64)
-    (hcm : c.mode64 = true) (hpe : c.preferEvex = false) (hk : c.extraId = 0#32) (hvs : c.vsib = false) (hts : c.tsib = false)
-    (hvf : c.vexFlag = (e.iflags &&& 0x400000#32 != 0#32)) (hm64 : ctx.mode64 = true) (hb : rb < 16#32)
+    (c : Model.X86.Ctx) (ctx : Spec.X86.Ctx) (reg vvvvv xb : BitVec 32) (size : Nat) (m : Mem) (mo : MemOp)
+    (mb : BitVec 32 → BitVec 32 → BitVec 8) (sib : BitVec 32 → BitVec 32 → Option (BitVec 8)) (ds : BitVec 32 → BitVec 32 → List (BitVec 8))
+    (AF : AddrForm c ctx m mo xb mb sib ds) (hsize : mo.size = size)
+    (hvf : c.vexFlag = (e.iflags &&& 0x400000#32 != 0#32)) (hm64 : ctx.mode64 = true)
     (hsz : ∀ f2, e.rule.ops[2]? = some f2 → hasMemAlt f2 size = true)
     (hids : (e.rule.space = 2 ∧ reg < 32#32 ∧ vvvvv < 32#32 ∧
-              (e.iflags &&& 0x400000#32 = 0#32 ∨ xR (finalOp e 0x75) 0#32 reg vvvvv rb 0#32 &&& 0x00D78150#32 ≠ 0#32)) ∨
+              (e.iflags &&& 0x400000#32 = 0#32 ∨ xR (finalOp e 0x75) 0#32 reg vvvvv xb 0#32 &&& 0x00D78110#32 ≠ 0#32)) ∨
             (e.rule.space = 1 ∧ reg < 16#32 ∧ vvvvv < 16#32)) :
     ∃ bytes k0 k1 k2, e.kinds = [k0, k1, k2] ∧
-      emitVexEvexM c (finalOp e 0x75) 0#32 (packRegVvvvv reg.toNat vvvvv.toNat) (memBase size rb d) 0 0 = .ok bytes ∧
-      formOk ctx e.rule [.reg k0 reg.toNat, .reg k1 vvvvv.toNat, .mem (memOpBase size rb d)] {} bytes = true := by
+      emitVexEvexM c (finalOp e 0x75) 0#32 (packRegVvvvv reg.toNat vvvvv.toNat) m 0 0 = .ok bytes ∧
+      formOk ctx e.rule [.reg k0 reg.toNat, .reg k1 vvvvv.toNat, .mem mo] {} bytes = true := by
   have hok := mem_chunks_ok rvm_mem_entries_ok e ch hch he
   unfold entryOkRvmMem at hok
   split at hok
@@ -185,46 +187,47 @@ theorem front_cls_correct_rvm_mem (e : Entry) (ch : List Entry) (hch : ch ∈ rv
     simp only [hasMemAlt_any f2 size hm2, Bool.not_true, Bool.false_or, Bool.and_eq_true, Bool.or_eq_true, beq_iff_eq] at hok
     obtain ⟨-, hC, r0, r1, r2, p0, p1, n0, n1, m0, m1⟩ := hok
     obtain ⟨R, hmode, -, A, hxop, hvex, hevex⟩ := memCoreOk_spec _ _ _ hC
-    have hal : alignOps e.rule.oszEff e.rule.ops [.reg k0 reg.toNat, .reg k1 vvvvv.toNat, .mem (memOpBase size rb d)] =
-        some [(f0, some (.reg k0 reg.toNat)), (f1, some (.reg k1 vvvvv.toNat)), (f2, some (.mem (memOpBase size rb d)))] := by
+    have hal : alignOps e.rule.oszEff e.rule.ops [.reg k0 reg.toNat, .reg k1 vvvvv.toNat, .mem mo] =
+        some [(f0, some (.reg k0 reg.toNat)), (f1, some (.reg k1 vvvvv.toNat)), (f2, some (.mem mo))] := by
       rw [hops]
       exact alignOps3 _ _ _ _ _ _ _ (by rw [formOpMatches_reg_nofix _ _ _ _ n0]; exact m0) (by rw [formOpMatches_reg_nofix _ _ _ _ n1]; exact m1)
-        (hasMemAlt_matches _ _ _ _ hm2 rfl rfl)
+        (hasMemAlt_matches _ _ _ _ hm2 hsize AF.hvsib)
     rcases hids with ⟨hsp, hr, hv, hev⟩ | ⟨hsp, hr, hv⟩
     · rw [hsp] at A
       obtain ⟨hs6, hN⟩ := hevex hsp
-      have hev' : c.vexFlag = false ∨ xR (finalOp e 0x75) 0#32 reg vvvvv rb 0#32 &&& 0x00D78150#32 ≠ 0#32 := by
+      have hev' : c.vexFlag = false ∨ xR (finalOp e 0x75) 0#32 reg vvvvv xb 0#32 &&& 0x00D78110#32 ≠ 0#32 := by
         rcases hev with h | h
         · exact Or.inl (vexFlag_false_of c _ hvf h)
         · exact Or.inr h
-      obtain ⟨bytes, hb', hf⟩ := vexM_rvm_formOk_evex c ctx e.rule (finalOp e 0x75) reg vvvvv rb size d k0 k1 f0 f1 f2 hcm hpe hk hvs hts hm64 hmode
-        hr hv hb hxop hev' (plainKind_spec _ p0) (plainKind_spec _ p1) R hsp A hs6 hN r0 r1 r2 hal
+      obtain ⟨bytes, hb', hf⟩ := vexM_rvm_formOk_evex c ctx e.rule (finalOp e 0x75) reg vvvvv xb m mo mb sib ds AF k0 k1 f0 f1 f2 hm64 hmode
+        hr hv hxop hev' (plainKind_spec _ p0) (plainKind_spec _ p1) R hsp A hs6 hN r0 r1 r2 hal
       refine ⟨bytes, k0, k1, k2, hkinds, ?_, hf⟩
       rw [packRegVvvvv_eq reg vvvvv hr hv]
       exact hb'
     · obtain ⟨hll, hmm, hvb⟩ := hvex hsp
       have A' : RowAgree e.rule (finalOp e 0x75) false := by rw [hsp] at A; exact A
-      obtain ⟨bytes, hb', hf⟩ := vexM_rvm_formOk_vex c ctx e.rule (finalOp e 0x75) reg vvvvv rb size d k0 k1 f0 f1 f2 hcm hpe hk
-        (vexFlag_true_of c _ hvf hvb) hvs hts hm64 hmode
-        hr hv hb hxop hll hmm (plainKind_spec _ p0) (plainKind_spec _ p1) R hsp A' r0 r1 r2 hal
+      obtain ⟨bytes, hb', hf⟩ := vexM_rvm_formOk_vex c ctx e.rule (finalOp e 0x75) reg vvvvv xb m mo mb sib ds AF k0 k1 f0 f1 f2
+        (vexFlag_true_of c _ hvf hvb) hm64 hmode
+        hr hv hxop hll hmm (plainKind_spec _ p0) (plainKind_spec _ p1) R hsp A' r0 r1 r2 hal
       refine ⟨bytes, k0, k1, k2, hkinds, ?_, hf⟩
       rw [packRegVvvvv_eq reg vvvvv (by bv_decide) (by bv_decide)]
       exact hb'
   · simp at hok
 
-/-- **front_cls_correct with a memory operand, classes VexRvmi / VexRvmi_Lx**: `reg, vvvv, [base64 + disp], imm8` for every immediate the form admits -/
+/-- **front_cls_correct with a memory operand, classes VexRvmi / VexRvmi_Lx**: `reg, vvvv, MEM, imm8` for every immediate the form admits -/
 theorem front_cls_correct_rvmi_mem (e : Entry) (ch : List Entry) (hch : ch ∈ rvmiChunks) (he : e ∈ ch)
-    (c : Model.X86.Ctx) (ctx : Spec.X86.Ctx) (reg vvvvv rb : BitVec 32) (size : Nat) (d imm : BitVec 64)
-    (hcm : c.mode64 = true) (hpe : c.preferEvex = false) (hk : c.extraId = 0#32) (hvs : c.vsib = false) (hts : c.tsib = false)
-    (hvf : c.vexFlag = (e.iflags &&& 0x400000#32 != 0#32)) (hm64 : ctx.mode64 = true) (hb : rb < 16#32)
+    (c : Model.X86.Ctx) (ctx : Spec.X86.Ctx) (reg vvvvv xb : BitVec 32) (size : Nat) (m : Mem) (mo : MemOp) (imm : BitVec 64)
+    (mb : BitVec 32 → BitVec 32 → BitVec 8) (sib : BitVec 32 → BitVec 32 → Option (BitVec 8)) (ds : BitVec 32 → BitVec 32 → List (BitVec 8))
+    (AF : AddrForm c ctx m mo xb mb sib ds) (hsize : mo.size = size)
+    (hvf : c.vexFlag = (e.iflags &&& 0x400000#32 != 0#32)) (hm64 : ctx.mode64 = true)
     (hsz : ∀ f2, e.rule.ops[2]? = some f2 → hasMemAlt f2 size = true)
     (himm : ∀ f3, e.rule.ops[3]? = some f3 → formOpMatches e.rule.oszEff f3 (.imm imm) = true)
     (hids : (e.rule.space = 2 ∧ reg < 32#32 ∧ vvvvv < 32#32 ∧
-              (e.iflags &&& 0x400000#32 = 0#32 ∨ xR (finalOp e 0x7C) 0#32 reg vvvvv rb 0#32 &&& 0x00D78150#32 ≠ 0#32)) ∨
+              (e.iflags &&& 0x400000#32 = 0#32 ∨ xR (finalOp e 0x7C) 0#32 reg vvvvv xb 0#32 &&& 0x00D78110#32 ≠ 0#32)) ∨
             (e.rule.space = 1 ∧ reg < 16#32 ∧ vvvvv < 16#32)) :
     ∃ bytes k0 k1 k2, e.kinds = [k0, k1, k2] ∧
-      emitVexEvexM c (finalOp e 0x7C) 0#32 (packRegVvvvv reg.toNat vvvvv.toNat) (memBase size rb d) imm 1 = .ok bytes ∧
-      formOk ctx e.rule [.reg k0 reg.toNat, .reg k1 vvvvv.toNat, .mem (memOpBase size rb d), .imm imm] {} bytes = true := by
+      emitVexEvexM c (finalOp e 0x7C) 0#32 (packRegVvvvv reg.toNat vvvvv.toNat) m imm 1 = .ok bytes ∧
+      formOk ctx e.rule [.reg k0 reg.toNat, .reg k1 vvvvv.toNat, .mem mo, .imm imm] {} bytes = true := by
   have hok := mem_chunks_ok rvmi_mem_entries_ok e ch hch he
   unfold entryOkRvmiMem at hok
   split at hok
@@ -234,46 +237,47 @@ theorem front_cls_correct_rvmi_mem (e : Entry) (ch : List Entry) (hch : ch ∈ r
     simp only [hasMemAlt_any f2 size hm2, Bool.not_true, Bool.false_or, Bool.and_eq_true, Bool.or_eq_true, beq_iff_eq] at hok
     obtain ⟨-, hC, r0, r1, r2, r3, hib, p0, p1, n0, n1, m0, m1⟩ := hok
     obtain ⟨R, hmode, -, A, hxop, hvex, hevex⟩ := memCoreOk_spec _ _ _ hC
-    have hal : alignOps e.rule.oszEff e.rule.ops [.reg k0 reg.toNat, .reg k1 vvvvv.toNat, .mem (memOpBase size rb d), .imm imm] =
-        some [(f0, some (.reg k0 reg.toNat)), (f1, some (.reg k1 vvvvv.toNat)), (f2, some (.mem (memOpBase size rb d))), (f3, some (.imm imm))] := by
+    have hal : alignOps e.rule.oszEff e.rule.ops [.reg k0 reg.toNat, .reg k1 vvvvv.toNat, .mem mo, .imm imm] =
+        some [(f0, some (.reg k0 reg.toNat)), (f1, some (.reg k1 vvvvv.toNat)), (f2, some (.mem mo)), (f3, some (.imm imm))] := by
       rw [hops]
       exact alignOps4 _ _ _ _ _ _ _ _ _ (by rw [formOpMatches_reg_nofix _ _ _ _ n0]; exact m0) (by rw [formOpMatches_reg_nofix _ _ _ _ n1]; exact m1)
-        (hasMemAlt_matches _ _ _ _ hm2 rfl rfl) m3
+        (hasMemAlt_matches _ _ _ _ hm2 hsize AF.hvsib) m3
     rcases hids with ⟨hsp, hr, hv, hev⟩ | ⟨hsp, hr, hv⟩
     · rw [hsp] at A
       obtain ⟨hs6, hN⟩ := hevex hsp
-      have hev' : c.vexFlag = false ∨ xR (finalOp e 0x7C) 0#32 reg vvvvv rb 0#32 &&& 0x00D78150#32 ≠ 0#32 := by
+      have hev' : c.vexFlag = false ∨ xR (finalOp e 0x7C) 0#32 reg vvvvv xb 0#32 &&& 0x00D78110#32 ≠ 0#32 := by
         rcases hev with h | h
         · exact Or.inl (vexFlag_false_of c _ hvf h)
         · exact Or.inr h
-      obtain ⟨bytes, hb', hf⟩ := vexM_rvmi_formOk_evex c ctx e.rule (finalOp e 0x7C) reg vvvvv rb size d k0 k1 f0 f1 f2 hcm hpe hk hvs hts hm64 hmode
-        hr hv hb hxop hev' (plainKind_spec _ p0) (plainKind_spec _ p1) R f3 imm r3 hib hsp A hs6 hN r0 r1 r2 hal
+      obtain ⟨bytes, hb', hf⟩ := vexM_rvmi_formOk_evex c ctx e.rule (finalOp e 0x7C) reg vvvvv xb m mo mb sib ds AF k0 k1 f0 f1 f2 hm64 hmode
+        hr hv hxop hev' (plainKind_spec _ p0) (plainKind_spec _ p1) R f3 imm r3 hib hsp A hs6 hN r0 r1 r2 hal
       refine ⟨bytes, k0, k1, k2, hkinds, ?_, hf⟩
       rw [packRegVvvvv_eq reg vvvvv hr hv]
       exact hb'
     · obtain ⟨hll, hmm, hvb⟩ := hvex hsp
       have A' : RowAgree e.rule (finalOp e 0x7C) false := by rw [hsp] at A; exact A
-      obtain ⟨bytes, hb', hf⟩ := vexM_rvmi_formOk_vex c ctx e.rule (finalOp e 0x7C) reg vvvvv rb size d k0 k1 f0 f1 f2 hcm hpe hk
-        (vexFlag_true_of c _ hvf hvb) hvs hts hm64 hmode
-        hr hv hb hxop hll hmm (plainKind_spec _ p0) (plainKind_spec _ p1) R f3 imm r3 hib hsp A' r0 r1 r2 hal
+      obtain ⟨bytes, hb', hf⟩ := vexM_rvmi_formOk_vex c ctx e.rule (finalOp e 0x7C) reg vvvvv xb m mo mb sib ds AF k0 k1 f0 f1 f2
+        (vexFlag_true_of c _ hvf hvb) hm64 hmode
+        hr hv hxop hll hmm (plainKind_spec _ p0) (plainKind_spec _ p1) R f3 imm r3 hib hsp A' r0 r1 r2 hal
       refine ⟨bytes, k0, k1, k2, hkinds, ?_, hf⟩
       rw [packRegVvvvv_eq reg vvvvv (by bv_decide) (by bv_decide)]
       exact hb'
   · simp at hok
 
-/-- **front_cls_correct with a memory operand, classes VexRm / VexRm_Lx**: `reg, [base64 + disp]`; for the _Lx class the L bits come from the
+/-- **front_cls_correct with a memory operand, classes VexRm / VexRm_Lx**: `reg, MEM`; for the _Lx class the L bits come from the
 register's size or-ed with the MEMORY operand's size (`finalOpM`) -/
 theorem front_cls_correct_rm_mem (e : Entry) (ch : List Entry) (hch : ch ∈ rmChunks) (he : e ∈ ch)
-    (c : Model.X86.Ctx) (ctx : Spec.X86.Ctx) (reg rb : BitVec 32) (size : Nat) (d : BitVec 64)
-    (hcm : c.mode64 = true) (hpe : c.preferEvex = false) (hk : c.extraId = 0#32) (hvs : c.vsib = false) (hts : c.tsib = false)
-    (hvf : c.vexFlag = (e.iflags &&& 0x400000#32 != 0#32)) (hm64 : ctx.mode64 = true) (hb : rb < 16#32)
+    (c : Model.X86.Ctx) (ctx : Spec.X86.Ctx) (reg xb : BitVec 32) (size : Nat) (m : Mem) (mo : MemOp)
+    (mb : BitVec 32 → BitVec 32 → BitVec 8) (sib : BitVec 32 → BitVec 32 → Option (BitVec 8)) (ds : BitVec 32 → BitVec 32 → List (BitVec 8))
+    (AF : AddrForm c ctx m mo xb mb sib ds) (hsize : mo.size = size)
+    (hvf : c.vexFlag = (e.iflags &&& 0x400000#32 != 0#32)) (hm64 : ctx.mode64 = true)
     (hsz : ∀ f2, e.rule.ops[1]? = some f2 → hasMemAlt f2 size = true)
     (hids : (e.rule.space = 2 ∧ reg < 32#32 ∧
-              (e.iflags &&& 0x400000#32 = 0#32 ∨ xR (finalOpM e 0x6B size) 0#32 reg 0#32 rb 0#32 &&& 0x00D78150#32 ≠ 0#32)) ∨
+              (e.iflags &&& 0x400000#32 = 0#32 ∨ xR (finalOpM e 0x6B size) 0#32 reg 0#32 xb 0#32 &&& 0x00D78110#32 ≠ 0#32)) ∨
             (e.rule.space = 1 ∧ reg < 16#32)) :
     ∃ bytes k0 k2, e.kinds = [k0, k2] ∧
-      emitVexEvexM c (finalOpM e 0x6B size) 0#32 (r32 reg.toNat) (memBase size rb d) 0 0 = .ok bytes ∧
-      formOk ctx e.rule [.reg k0 reg.toNat, .mem (memOpBase size rb d)] {} bytes = true := by
+      emitVexEvexM c (finalOpM e 0x6B size) 0#32 (r32 reg.toNat) m 0 0 = .ok bytes ∧
+      formOk ctx e.rule [.reg k0 reg.toNat, .mem mo] {} bytes = true := by
   have hok := mem_chunks_ok rm_mem_entries_ok e ch hch he
   unfold entryOkRmMem at hok
   split at hok
@@ -283,46 +287,47 @@ theorem front_cls_correct_rm_mem (e : Entry) (ch : List Entry) (hch : ch ∈ rmC
     simp only [Bool.and_eq_true, Bool.or_eq_true, beq_iff_eq] at hok
     obtain ⟨-, hC, r0, r2, p0, n0, m0⟩ := hok
     obtain ⟨R, hmode, -, A, hxop, hvex, hevex⟩ := memCoreOk_spec _ _ _ hC
-    have hal : alignOps e.rule.oszEff e.rule.ops [.reg k0 reg.toNat, .mem (memOpBase size rb d)] =
-        some [(f0, some (.reg k0 reg.toNat)), (f2, some (.mem (memOpBase size rb d)))] := by
+    have hal : alignOps e.rule.oszEff e.rule.ops [.reg k0 reg.toNat, .mem mo] =
+        some [(f0, some (.reg k0 reg.toNat)), (f2, some (.mem mo))] := by
       rw [hops]
-      exact alignOps2 _ _ _ _ _ (by rw [formOpMatches_reg_nofix _ _ _ _ n0]; exact m0) (hasMemAlt_matches _ _ _ _ hm2 rfl rfl)
+      exact alignOps2 _ _ _ _ _ (by rw [formOpMatches_reg_nofix _ _ _ _ n0]; exact m0) (hasMemAlt_matches _ _ _ _ hm2 hsize AF.hvsib)
     have e0 : reg + ((0#32 : BitVec 32) <<< 7) = reg := by bv_decide
     rcases hids with ⟨hsp, hr, hev⟩ | ⟨hsp, hr⟩
     · rw [hsp] at A
       obtain ⟨hs6, hN⟩ := hevex hsp
-      have hev' : c.vexFlag = false ∨ xR (finalOpM e 0x6B size) 0#32 reg 0#32 rb 0#32 &&& 0x00D78150#32 ≠ 0#32 := by
+      have hev' : c.vexFlag = false ∨ xR (finalOpM e 0x6B size) 0#32 reg 0#32 xb 0#32 &&& 0x00D78110#32 ≠ 0#32 := by
         rcases hev with h | h
         · exact Or.inl (vexFlag_false_of c _ hvf h)
         · exact Or.inr h
-      obtain ⟨bytes, hb', hf⟩ := vexM_rm_formOk_evex c ctx e.rule (finalOpM e 0x6B size) reg rb size d k0 f0 f2 hcm hpe hk hvs hts hm64 hmode
-        hr hb hxop hev' (plainKind_spec _ p0) R hsp A hs6 hN r0 r2 hal
+      obtain ⟨bytes, hb', hf⟩ := vexM_rm_formOk_evex c ctx e.rule (finalOpM e 0x6B size) reg xb m mo mb sib ds AF k0 f0 f2 hm64 hmode
+        hr hxop hev' (plainKind_spec _ p0) R hsp A hs6 hN r0 r2 hal
       refine ⟨bytes, k0, k2, hkinds, ?_, hf⟩
       rw [e0] at hb'
       simpa [r32] using hb'
     · obtain ⟨hll, hmm, hvb⟩ := hvex hsp
       have A' : RowAgree e.rule (finalOpM e 0x6B size) false := by rw [hsp] at A; exact A
-      obtain ⟨bytes, hb', hf⟩ := vexM_rm_formOk_vex c ctx e.rule (finalOpM e 0x6B size) reg rb size d k0 f0 f2 hcm hpe hk
-        (vexFlag_true_of c _ hvf hvb) hvs hts hm64 hmode
-        hr hb hxop hll hmm (plainKind_spec _ p0) R hsp A' r0 r2 hal
+      obtain ⟨bytes, hb', hf⟩ := vexM_rm_formOk_vex c ctx e.rule (finalOpM e 0x6B size) reg xb m mo mb sib ds AF k0 f0 f2
+        (vexFlag_true_of c _ hvf hvb) hm64 hmode
+        hr hxop hll hmm (plainKind_spec _ p0) R hsp A' r0 r2 hal
       refine ⟨bytes, k0, k2, hkinds, ?_, hf⟩
       rw [e0] at hb'
       simpa [r32] using hb'
   · simp at hok
 
-/-- **front_cls_correct with a memory operand, classes VexRmi / VexRmi_Lx**: `reg, [base64 + disp], imm8` -/
+/-- **front_cls_correct with a memory operand, classes VexRmi / VexRmi_Lx**: `reg, MEM, imm8` -/
 theorem front_cls_correct_rmi_mem (e : Entry) (ch : List Entry) (hch : ch ∈ rmiChunks) (he : e ∈ ch)
-    (c : Model.X86.Ctx) (ctx : Spec.X86.Ctx) (reg rb : BitVec 32) (size : Nat) (d imm : BitVec 64)
-    (hcm : c.mode64 = true) (hpe : c.preferEvex = false) (hk : c.extraId = 0#32) (hvs : c.vsib = false) (hts : c.tsib = false)
-    (hvf : c.vexFlag = (e.iflags &&& 0x400000#32 != 0#32)) (hm64 : ctx.mode64 = true) (hb : rb < 16#32)
+    (c : Model.X86.Ctx) (ctx : Spec.X86.Ctx) (reg xb : BitVec 32) (size : Nat) (m : Mem) (mo : MemOp) (imm : BitVec 64)
+    (mb : BitVec 32 → BitVec 32 → BitVec 8) (sib : BitVec 32 → BitVec 32 → Option (BitVec 8)) (ds : BitVec 32 → BitVec 32 → List (BitVec 8))
+    (AF : AddrForm c ctx m mo xb mb sib ds) (hsize : mo.size = size)
+    (hvf : c.vexFlag = (e.iflags &&& 0x400000#32 != 0#32)) (hm64 : ctx.mode64 = true)
     (hsz : ∀ f2, e.rule.ops[1]? = some f2 → hasMemAlt f2 size = true)
     (himm : ∀ f3, e.rule.ops[2]? = some f3 → formOpMatches e.rule.oszEff f3 (.imm imm) = true)
     (hids : (e.rule.space = 2 ∧ reg < 32#32 ∧
-              (e.iflags &&& 0x400000#32 = 0#32 ∨ xR (finalOpM e 0x71 size) 0#32 reg 0#32 rb 0#32 &&& 0x00D78150#32 ≠ 0#32)) ∨
+              (e.iflags &&& 0x400000#32 = 0#32 ∨ xR (finalOpM e 0x71 size) 0#32 reg 0#32 xb 0#32 &&& 0x00D78110#32 ≠ 0#32)) ∨
             (e.rule.space = 1 ∧ reg < 16#32)) :
     ∃ bytes k0 k2, e.kinds = [k0, k2] ∧
-      emitVexEvexM c (finalOpM e 0x71 size) 0#32 (r32 reg.toNat) (memBase size rb d) imm 1 = .ok bytes ∧
-      formOk ctx e.rule [.reg k0 reg.toNat, .mem (memOpBase size rb d), .imm imm] {} bytes = true := by
+      emitVexEvexM c (finalOpM e 0x71 size) 0#32 (r32 reg.toNat) m imm 1 = .ok bytes ∧
+      formOk ctx e.rule [.reg k0 reg.toNat, .mem mo, .imm imm] {} bytes = true := by
   have hok := mem_chunks_ok rmi_mem_entries_ok e ch hch he
   unfold entryOkRmiMem at hok
   split at hok
@@ -333,28 +338,28 @@ theorem front_cls_correct_rmi_mem (e : Entry) (ch : List Entry) (hch : ch ∈ rm
     simp only [Bool.and_eq_true, Bool.or_eq_true, beq_iff_eq] at hok
     obtain ⟨-, hC, r0, r2, r3, hib, p0, n0, m0⟩ := hok
     obtain ⟨R, hmode, -, A, hxop, hvex, hevex⟩ := memCoreOk_spec _ _ _ hC
-    have hal : alignOps e.rule.oszEff e.rule.ops [.reg k0 reg.toNat, .mem (memOpBase size rb d), .imm imm] =
-        some [(f0, some (.reg k0 reg.toNat)), (f2, some (.mem (memOpBase size rb d))), (f3, some (.imm imm))] := by
+    have hal : alignOps e.rule.oszEff e.rule.ops [.reg k0 reg.toNat, .mem mo, .imm imm] =
+        some [(f0, some (.reg k0 reg.toNat)), (f2, some (.mem mo)), (f3, some (.imm imm))] := by
       rw [hops]
-      exact alignOps3i _ _ _ _ _ _ _ (by rw [formOpMatches_reg_nofix _ _ _ _ n0]; exact m0) (hasMemAlt_matches _ _ _ _ hm2 rfl rfl) m3
+      exact alignOps3i _ _ _ _ _ _ _ (by rw [formOpMatches_reg_nofix _ _ _ _ n0]; exact m0) (hasMemAlt_matches _ _ _ _ hm2 hsize AF.hvsib) m3
     have e0 : reg + ((0#32 : BitVec 32) <<< 7) = reg := by bv_decide
     rcases hids with ⟨hsp, hr, hev⟩ | ⟨hsp, hr⟩
     · rw [hsp] at A
       obtain ⟨hs6, hN⟩ := hevex hsp
-      have hev' : c.vexFlag = false ∨ xR (finalOpM e 0x71 size) 0#32 reg 0#32 rb 0#32 &&& 0x00D78150#32 ≠ 0#32 := by
+      have hev' : c.vexFlag = false ∨ xR (finalOpM e 0x71 size) 0#32 reg 0#32 xb 0#32 &&& 0x00D78110#32 ≠ 0#32 := by
         rcases hev with h | h
         · exact Or.inl (vexFlag_false_of c _ hvf h)
         · exact Or.inr h
-      obtain ⟨bytes, hb', hf⟩ := vexM_rmi_formOk_evex c ctx e.rule (finalOpM e 0x71 size) reg rb size d k0 f0 f2 hcm hpe hk hvs hts hm64 hmode
-        hr hb hxop hev' (plainKind_spec _ p0) R f3 imm r3 hib hsp A hs6 hN r0 r2 hal
+      obtain ⟨bytes, hb', hf⟩ := vexM_rmi_formOk_evex c ctx e.rule (finalOpM e 0x71 size) reg xb m mo mb sib ds AF k0 f0 f2 hm64 hmode
+        hr hxop hev' (plainKind_spec _ p0) R f3 imm r3 hib hsp A hs6 hN r0 r2 hal
       refine ⟨bytes, k0, k2, hkinds, ?_, hf⟩
       rw [e0] at hb'
       simpa [r32] using hb'
     · obtain ⟨hll, hmm, hvb⟩ := hvex hsp
       have A' : RowAgree e.rule (finalOpM e 0x71 size) false := by rw [hsp] at A; exact A
-      obtain ⟨bytes, hb', hf⟩ := vexM_rmi_formOk_vex c ctx e.rule (finalOpM e 0x71 size) reg rb size d k0 f0 f2 hcm hpe hk
-        (vexFlag_true_of c _ hvf hvb) hvs hts hm64 hmode
-        hr hb hxop hll hmm (plainKind_spec _ p0) R f3 imm r3 hib hsp A' r0 r2 hal
+      obtain ⟨bytes, hb', hf⟩ := vexM_rmi_formOk_vex c ctx e.rule (finalOpM e 0x71 size) reg xb m mo mb sib ds AF k0 f0 f2
+        (vexFlag_true_of c _ hvf hvb) hm64 hmode
+        hr hxop hll hmm (plainKind_spec _ p0) R f3 imm r3 hib hsp A' r0 r2 hal
       refine ⟨bytes, k0, k2, hkinds, ?_, hf⟩
       rw [e0] at hb'
       simpa [r32] using hb'
